@@ -7,6 +7,7 @@ plumbing code is executed natively (numpy view aliasing is real):
   QpointsPhonon._run          with_eigenvectors x with_dynamical_matrices x use_openmp (extension reports OpenMP or not)
   Mesh._set_phonon / IterMesh with_eigenvectors x use_openmp
   BandStructure._solve_dm_on_path   with_eigenvectors x is_band_connection
+  BandStructure with NAC      the approach direction handed to DynamicalMatrixNAC.run at Gamma (reduced coordinates), vs q-point lists
   GroupVelocity.run           history: a call with a perturbation direction followed by calls without one
 Assertions (equalities over uninterpreted symbols, decided by z3): reported D(q_i) is the computed D(q_i); reported
 eigenvalues / eigenvectors are the stub's outputs for that D(q_i); frequencies = sign(l) sqrt|l| factor; each output does
@@ -31,7 +32,7 @@ QS = [[0.1, 0.2, 0.3], [0.5, 0.0, 0.25], [0.0, 0.0, 0.0]]
 
 def units(tier):
     u = [("qpoints", e, d, o) for e in (0, 1) for d in (0, 1) for o in (0, 1)]
-    u += [("mesh", e, o) for e in (0, 1) for o in (0, 1)] + [("itermesh", 1, 0), ("band", 0, 0), ("band", 1, 0), ("band", 1, 1), ("gv_history", 0)]
+    u += [("mesh", e, o) for e in (0, 1) for o in (0, 1)] + [("itermesh", 1, 0), ("band", 0, 0), ("band", 1, 0), ("band", 1, 1), ("gv_history", 0), ("band_nac", "tric2", "nd4", 1), ("band_nac", "hex2", "211", 0)]
     return u
 
 
@@ -39,8 +40,8 @@ def qkey(q):
     return "q" + hashlib.sha1(np.round(np.array(q, dtype=float), 9).tobytes()).hexdigest()[:6]
 
 
-def Dsym(q, nb):
-    k = qkey(q)
+def Dsym(q, nb, tag=""):
+    k = qkey(q) + tag
     a = symnp._zeros((nb, nb), 'c')
     for r in range(nb):
         for c in range(nb):
@@ -130,6 +131,109 @@ class Env:
         for mod, name, val in s.saved:
             setattr(mod, name, val)
         s.br.uninstall()
+
+
+def dir_tag(rec_lat, q, q_direction):
+    """what a NAC dynamical matrix depends on besides q: at Gamma, the Cartesian approach direction up to sign and length
+    (q_direction is given in reduced coordinates: contract of DynamicalMatrixNAC.run); elsewhere nothing."""
+    if q_direction is None or np.abs(np.array(q, dtype=float)).max() > 1e-5:
+        return ""
+    c = rec_lat @ np.array(q_direction, dtype=float)
+    if np.linalg.norm(c) < 1e-5:
+        return ""
+    c = c / np.linalg.norm(c)
+    k = int(np.argmax(np.abs(c) > 1e-6))
+    if c[k] < 0:
+        c = -c
+    return "d" + hashlib.sha1(np.round(c, 6).tobytes()).hexdigest()[:6]
+
+
+def band_nac_unit(u, res):
+    """with NAC on: the Gamma point of a band segment is approached along the segment; the same D (hence the same phonons)
+    as a q-point list with nac_q_direction = segment direction and as the dynamical-matrix object run directly"""
+    _, gid, sid, with_e = u
+    paths = [[[0.0, 0.0, 0.0], [0.25, 0.0, 0.0], [0.5, 0.0, 0.0]], [[0.3, 0.3, 0.0], [0.15, 0.15, 0.0], [0.0, 0.0, 0.0]],
+             [[0.0, 0.2, -0.2], [0.0, 0.0, 0.0], [0.0, -0.2, 0.2]], [[0.5, 0.0, 0.0], [0.5, 0.25, 0.0], [0.5, 0.5, 0.0]]]
+    ph = geometries.phonopy_obj(gid, sid)
+    rng = np.random.default_rng(4); n = len(ph.supercell); npr = len(ph.primitive)
+    ph.force_constants = rng.uniform(-1, 1, (n, n, 3, 3))
+    born = rng.uniform(-1, 1, (npr, 3, 3)); born -= born.mean(axis=0)
+    ph.nac_params = {"born": born, "dielectric": np.eye(3) * 2.0 + 0.1, "factor": 14.4}
+    nb = 3 * npr
+    from phonopy.harmonic.dynamical_matrix import DynamicalMatrixNAC
+    cls = type(ph.dynamical_matrix)
+    if not issubclass(cls, DynamicalMatrixNAC):
+        raise HarnessError("NAC parameters did not give a NAC dynamical matrix")
+    rec_lat = np.linalg.inv(ph.primitive.cell)
+    calls = []
+    with Env(ph, 0) as env:
+        def run(self, q, q_direction=None, lang="C"):
+            calls.append((list(map(float, q)), None if q_direction is None else list(map(float, q_direction))))
+            self._dynamical_matrix = Dsym(q, nb, dir_tag(rec_lat, q, q_direction))
+        cls.run = run
+        ph.run_band_structure([np.array(p) for p in paths], with_eigenvectors=bool(with_e))
+        d = ph.get_band_structure_dict()
+        dq = []
+        for p in paths:
+            ph.run_qpoints(p, with_eigenvectors=bool(with_e), nac_q_direction=np.array(p[0]) - np.array(p[-1]))
+            dq.append(ph.get_qpoints_dict())
+    for s_, p in enumerate(paths):
+        through_gamma = np.linalg.norm(np.cross(rec_lat @ np.array(p[0]), rec_lat @ np.array(p[-1]))) < 1e-5
+        for i, q in enumerate(p):
+            tag = dir_tag(rec_lat, q, np.array(p[0]) - np.array(p[-1])) if through_gamma else ""
+            Dq = Dsym(q, nb, tag); mid = mat_id(Dq); ev = EigStub.vals(mid, nb)
+            want = np.sqrt(np.abs(ev)) * np.sign(ev) * ph._factor
+            got = np.array([float(x) for x in d["frequencies"][s_][i]])
+            gq = np.array([float(x) for x in dq[s_]["frequencies"][i]])
+            key0 = "%s:band_nac:%s/%s:e%d" % (PID, gid, sid, with_e)
+            for nm, ok, kk in (("band-path frequencies at point %d of segment %d come from D(q; approach direction = segment direction at Gamma)" % (i, s_), np.allclose(got, want, atol=1e-12), ":freq"),
+                               ("q-point list with nac_q_direction = segment direction reports the same frequencies at point %d of segment %d" % (i, s_), np.allclose(gq, want, atol=1e-12), ":qpoints")):
+                res.queries.append({"name": nm + " [eigenvalue stub is concrete: ground fact]", "verdict": "unsat" if ok else "sat", "seconds": 0.0, "nvars": 0, "nontrivial": False, "hash": "ground"})
+                if not ok:
+                    conf, what = replay_band_nac(gid, sid)
+                    (res.violations if conf else res.unconfirmed).append({"key": key0 + kk, "what": nm + " fails; " + what, "replay": {"gid": gid, "sid": sid, "paths": paths}})
+            if with_e:
+                Vw = [x for r in range(nb) for c in range(nb) for x in (SR(z3.Real("V_%s_%d_%d_re" % (mid, r, c))), SR(z3.Real("V_%s_%d_%d_im" % (mid, r, c))))]
+                eq_terms(res, "band-path eigenvectors at point %d of segment %d are the eigensolver output for that D" % (i, s_), flat_c(d["eigenvectors"][s_][i]), Vw, key0 + ":eigvec", lambda: replay_band_nac(gid, sid))
+    tags = {dir_tag(rec_lat, q, qd) for q, qd in calls}
+    res.twins.append({"name": "band_nac twin: a Gamma point with an approach direction was reached", "verdict": "sat" if len(tags - {""}) >= 3 else "unsat"})
+    if len(tags - {""}) < 3:
+        raise HarnessError("band_nac: no direction-dependent Gamma point reached")
+    res.samples.append({"unit": res.unit, "paths": paths, "calls": len(calls)})
+    return res
+
+
+@symnp.outside_session
+def replay_band_nac(gid, sid):
+    """concrete: the band-path phonons at Gamma equal those of the dynamical-matrix object run with the segment direction, and are
+    the q -> 0 limit along the segment"""
+    ctx = harness.setup()
+    from engine import bridge as _b
+    br = _b.Bridge(ctx.shim, ctx.ir); br.install()
+    try:
+        ph = geometries.phonopy_obj(gid, sid)
+        rng = np.random.default_rng(4); n = len(ph.supercell); npr = len(ph.primitive)
+        F = rng.uniform(-1, 1, (n, n, 3, 3)); F = (F + np.transpose(F, (1, 0, 3, 2))) / 2
+        ph.force_constants = F
+        born = rng.uniform(-1, 1, (npr, 3, 3)); born -= born.mean(axis=0)
+        ph.nac_params = {"born": born, "dielectric": np.eye(3) * 2.0 + 0.1, "factor": 14.4}
+        worst = 0.0
+        for p in ([[0.0, 0.0, 0.0], [0.25, 0.0, 0.0], [0.5, 0.0, 0.0]], [[0.3, 0.3, 0.0], [0.15, 0.15, 0.0], [0.0, 0.0, 0.0]], [[0.0, 0.2, -0.2], [0.0, 0.0, 0.0], [0.0, -0.2, 0.2]]):
+            ph.run_band_structure([np.array(p)])
+            fb = ph.get_band_structure_dict()["frequencies"][0]
+            ig = [i for i, q in enumerate(p) if np.abs(q).max() < 1e-9][0]
+            dvec = np.array(p[0]) - np.array(p[-1])
+            dm = ph.dynamical_matrix
+            dm.run(np.zeros(3), q_direction=dvec)
+            ev = np.linalg.eigvalsh(dm.dynamical_matrix).real
+            fd = np.sqrt(np.abs(ev)) * np.sign(ev) * ph.unit_conversion_factor
+            worst = max(worst, float(np.abs(fb[ig] - fd).max()))
+            ph.run_qpoints([dvec / np.linalg.norm(dvec) * 1e-5])
+            fl = ph.get_qpoints_dict()["frequencies"][0]
+            worst = max(worst, float(np.abs(np.sort(fb[ig])[3:] - np.sort(fl)[3:]).max()) - 1e-3)
+    finally:
+        br.uninstall()
+    return worst > 1e-6, "band path through Gamma with NAC: phonons at Gamma differ from DynamicalMatrixNAC.run(Gamma, q_direction=segment) / the q->0 limit along the segment by %.3g" % worst
 
 
 def eq_terms(res, name, got, want, key, replay=None):
@@ -456,7 +560,7 @@ def run_unit(u):
     res = Result("/".join(str(x) for x in u))
     harness.setup()
     EigStub.log = []
-    return {"qpoints": qpoints_unit, "mesh": mesh_unit, "itermesh": mesh_unit, "band": band_unit, "gv_history": gv_history_unit}[u[0]](u, res)
+    return {"qpoints": qpoints_unit, "mesh": mesh_unit, "itermesh": mesh_unit, "band": band_unit, "band_nac": band_nac_unit, "gv_history": gv_history_unit}[u[0]](u, res)
 
 
 def main(tier, seed):
@@ -465,7 +569,7 @@ def main(tier, seed):
     us = units(tier)
     chk.bounds = ["one crystal (CsCl-type 2x1x1), q-lists of 3 points, meshes 2x1x1, one 3-point band path", "options: with_eigenvectors x with_dynamical_matrices x use_openmp (QpointsPhonon), with_eigenvectors x use_openmp (Mesh), with_eigenvectors x is_band_connection (band)",
                   "group-velocity histories of length <= 3 ending in run_qpoints / run_mesh"]
-    chk.outside = ["the numerical kernels and LAPACK (stubbed; covered by C02/C12/C13)", "yaml/hdf5 writers (float formatting)", "NAC dynamical matrices in the plumbing"]
+    chk.outside = ["the numerical kernels and LAPACK (stubbed; covered by C02/C12/C13)", "yaml/hdf5 writers (float formatting)", "NAC numerics (C08); NAC plumbing other than the approach direction at Gamma on band paths and q-point lists"]
     chk.assumptions = ["contract stubs: D(q) depends on q only; eigensolver outputs are a function of the matrix passed; group-velocity numerics (_get_dD, _perturb_D, _symmetrize_group_velocity) are uninterpreted functions",
                        "use_openmp() of the extension is a symbolic configuration flag enumerated over {0,1}"]
     chk.run_units(run_unit, us)
